@@ -298,7 +298,7 @@ func (ad *Advertisement) VerifySignature() (peer.ID, error) {
 		seenTopLevelProv := false
 		for _, p := range ad.ExtendedProvider.Providers {
 
-			_, err = record.ConsumeTypedEnvelope(p.Signature, rec)
+			epEnvelope, err := record.ConsumeTypedEnvelope(p.Signature, rec)
 			if err != nil {
 				return "", err
 			}
@@ -314,8 +314,26 @@ func (ad *Advertisement) VerifySignature() (peer.ID, error) {
 				return "", errors.New("invalid signature")
 			}
 
+			// The signature must have been made by the identity that the
+			// entry names. The entry of the top level provider is signed
+			// with the key that signed the advertisement itself.
+			epSignerID, err := peer.IDFromPublicKey(epEnvelope.PublicKey)
+			if err != nil {
+				return "", fmt.Errorf("cannot convert public key to peer ID: %w", err)
+			}
 			if p.ID == ad.Provider {
 				seenTopLevelProv = true
+				if epSignerID != signerID {
+					return "", errors.New("extended provider signature of the top level provider was not made by the advertisement signer")
+				}
+			} else {
+				epID, err := peer.Decode(p.ID)
+				if err != nil {
+					return "", fmt.Errorf("cannot decode extended provider ID: %w", err)
+				}
+				if epSignerID != epID {
+					return "", errors.New("extended provider signature was not made by the extended provider")
+				}
 			}
 		}
 
